@@ -74,6 +74,8 @@ def run_make(d, setting, fault, plugin_fail=None):
         try:
             fsfault.install()
             fsfault.STATE.reset(d, fault, md_first=setting.get("md_first", True))
+            if setting.get("worker_timing") == "late":
+                fsfault.hold_workers()
             devnull = os.open(os.devnull, os.O_WRONLY)
             os.dup2(devnull, 1)
             os.dup2(devnull, 2)
@@ -213,7 +215,8 @@ def model_check(chk):
     quick = chk.tier == "quick"
     for proc, pool in (("single", False), ("threaded", False), ("threaded", True)):
         for repaired in (True, False):
-            consts = dict(N=2 if quick else 3, Pool=pool, Proc=proc, MaxFaults=2, MaxRetry=2 if quick else 3, Repaired=repaired)
+            consts = dict(N=2 if quick else 3, Pool=pool, Proc=proc, MaxFaults=2, MaxRetry=2 if quick else 3, Repaired=repaired,
+                          TwoPassPrune=False)
             files = {"Storage.cfg": V.cfg_text(consts, ["TypeOK", "VisibleImpliesCorrect", "ReportedFailure",
                                                         "RetryHeals", "NoTruncFinal"])}
             d = V.stage_spec(["Storage"], files)
@@ -227,6 +230,17 @@ def model_check(chk):
                 if not r.violated:
                     raise V.MachineryError(f"Storage.tla with Repaired=FALSE satisfies every invariant for {consts}: "
                                            "the invariants have no teeth")
+    # the first repair of the dropped-worker-failure defect looked at finished futures in one pass and dropped them in a second
+    # one: a worker failing in between was lost again (found by the late-worker schedule on the real code); the model must notice
+    consts = dict(N=2, Pool=True, Proc="threaded", MaxFaults=2, MaxRetry=2, Repaired=True, TwoPassPrune=True)
+    d = V.stage_spec(["Storage"], {"Storage.cfg": V.cfg_text(consts, ["TypeOK", "VisibleImpliesCorrect", "ReportedFailure", "RetryHeals",
+                                                                      "NoTruncFinal"])})
+    r = V.run_tlc(d, "Storage", "Storage.cfg", workers=4, timeout=900)
+    chk.add_tlc(r, f"Storage.tla {consts}")
+    V.tlc_must_finish(r, f"Storage {consts}")
+    teeth.append(dict(consts=consts, violated=r.violated))
+    if not r.violated:
+        raise V.MachineryError("Storage.tla with the two-pass prune satisfies every invariant: the invariants have no teeth")
     chk.extra["unrepaired_protocol_violations"] = teeth
     return findings
 
@@ -253,7 +267,9 @@ def validate_obs(chk, recs):
 def settings(tier):
     S = [dict(processor="single_thread", max_workers=None, nchunks=2),
          dict(processor="threaded_mailbox", max_workers=None, nchunks=2),
-         dict(processor="threaded_mailbox", max_workers=2, nchunks=2)]
+         dict(processor="threaded_mailbox", max_workers=2, nchunks=2),
+         # the same, with every pool worker finishing right after the saver found its future unfinished
+         dict(processor="threaded_mailbox", max_workers=2, nchunks=2, worker_timing="late")]
     if tier == "thorough":
         S += [dict(processor="single_thread", max_workers=None, nchunks=3),
               dict(processor="threaded_mailbox", max_workers=2, nchunks=3)]
@@ -291,7 +307,7 @@ def run(chk):
         if base["outcome"] != "returned" or any(v != "valid" for v in base["obs"].values()):
             raise V.MachineryError(f"fault-free make does not work in the harness: {base['exc']} {base['obs']}")
         points = base["log"]
-        chk.extra.setdefault("fault_points", {})[f"{setting['processor']}/{setting['max_workers']}/{setting['nchunks']}"] = len(points)
+        chk.extra.setdefault("fault_points", {})[f"{setting['processor']}/{setting['max_workers']}/{setting['nchunks']}" + ("/late-workers" if setting.get("worker_timing") else "")] = len(points)
         for j, (label, k) in enumerate(points):
             for mode in ("error", "crash_before", "crash_after"):
                 if chk.tier == "quick" and mode == "crash_before" and j > 0 and setting["processor"] == "single_thread":
@@ -335,7 +351,7 @@ def run(chk):
         if i in rejected:
             f = rec["fault"] or ("plugin", rec["plugin_fail"])
             clauses = which_clause(o)
-            proc = f"{rec['setting']['processor']}/workers={rec['setting']['max_workers']}"
+            proc = f"{rec['setting']['processor']}/workers={rec['setting']['max_workers']}" + ("/late-workers" if rec["setting"].get("worker_timing") else "")
             fl = fault_label_class(f[0]) if rec["fault"] else f"plugin:{rec['plugin_fail'][0]}"
             mode = f[2] if rec["fault"] else "exception"
             if rec["second"]:
@@ -370,7 +386,7 @@ def validate_saver_traces(chk, recs):
     nval = 0
     for (proc, pool, n), items in groups.items():
         consts = dict(N=n, Pool=pool, Proc="single" if proc == "single_thread" else "threaded", MaxFaults=1, MaxRetry=0,
-                      Repaired=True)
+                      Repaired=True, TwoPassPrune=False)
         d = V.stage_spec(["Storage", "StorageTrace"], {"StorageTrace.cfg":
                          V.cfg_text(consts, ["Progress", "VisibleImpliesCorrect", "ReportedFailure", "RetryHeals"],
                                     spec="TraceSpec", extra="POSTCONDITION AllAccepted\n")})
